@@ -1543,8 +1543,10 @@ def directed_late_joiner(drv, rng, defender_tables, on_fail, stats, n):
         cfg["env"].update({"required_players": req, "use_dynamic_addresses": True, "use_firewall": True, "use_global_defender": False})
         att = cfg["coordinator"]["agents"]["Attacker"]
         att["start_position"]["controlled_hosts"] = ["213.47.23.195", "192.168.2.2"]
-        att["start_position"]["known_hosts"] = rng.choice([[], ["192.168.1.2"], ["192.168.1.3", "192.168.2.1"]])
+        att["start_position"]["known_hosts"] = rng.choice([[], ["192.168.1.3"], ["192.168.1.3", "192.168.2.1"]])
         att.pop("max_steps", None)
+        if rng.random() < 0.7:      # a goal that names an address and is one scan away
+            att["goal"].update({"known_networks": [], "known_hosts": ["192.168.1.2"], "controlled_hosts": [], "known_services": {}, "known_data": {}, "known_blocks": {}})
         cfg["coordinator"]["agents"]["Defender"]["start_position"]["controlled_hosts"] = rng.choice([["192.168.1.2"], ["192.168.1.2", "192.168.2.2"]])
         cfg["coordinator"]["agents"]["Defender"].pop("max_steps", None)
         sess = Session(drv, rng, cfg, defender_tables, on_fail, stats, f"late-joiner#{i}")
@@ -1565,6 +1567,22 @@ def directed_late_joiner(drv, rng, defender_tables, on_fail, stats, n):
                 for c in range(req):
                     if not sess.broken:
                         sess.do(ev_reset(c, rng.random() < 0.3))
+            if sess.broken:
+                continue
+            # second or third episode, addresses re-labelled once or twice: agent 0 does what its goal asks for (one scan reveals
+            # the goal host); the win condition in force must be the configured one under the CURRENT labelling
+            try:
+                mi, mn = sess.coord._ip_mapping, sess.coord._network_mapping
+                scan = Action(ActionType.ScanNetwork, {"source_host": mi[IP("192.168.2.2")], "target_network": mn[Network("192.168.1.0", 24)]})
+            except Exception:
+                scan = None
+            if scan is not None and not sess.coord._episode_ends.get(PEER(0)):
+                plain_fail = sess.fail
+                sess.fail = lambda tags, sig, desc, rep: plain_fail(set(tags) | {"C19", "C13"}, sig, desc, rep)
+                try:
+                    sess.do({"t": "msg", "c": 0, "m": {"k": "game", "act": sess.akey(scan)}, "raw_bytes": scan.to_json().encode(), "roll": 0.9})
+                finally:
+                    sess.fail = plain_fail
             if sess.broken:
                 continue
             leaver = rng.randrange(req)
@@ -1913,6 +1931,48 @@ def probe_same_peer_slots(on_fail, stats):
                         {"kind": "config-session", "config": cfg, "script": [f"two connections with peer name {peer!r}", "both: EOF", "two new agents connect and join"]})
         finally:
             sim.close()
+
+
+def probe_defender_switch(on_fail, stats):
+    """env.use_global_defender takes the configured value - in what the game DOES: with the switch on, an attacker that scans
+    six times in a row (the detection draw pinned to 0) is detected and ends with Fail; with the switch off or absent the same
+    script is never detected (C19; C17 for the 'on' half)."""
+    orig = GD.random
+    GD.random = lambda: 0.0
+    try:
+        for setting in (True, False, None):
+            env = {"required_players": 1}
+            if setting is not None:
+                env["use_global_defender"] = setting
+            cfg = default_config(env=env)
+            if setting is None:
+                cfg["env"].pop("use_global_defender", None)
+            cfg["coordinator"]["agents"]["Attacker"]["max_steps"] = 50
+            cfg["coordinator"]["agents"]["Attacker"]["goal"]["known_data"] = {"213.47.23.195": [["User9", "NoSuchData"]]}
+            sim = Sim(cfg)
+            try:
+                if sim.startup_error is not None or sim.server_cb is None:
+                    continue
+                sim.connect(0)
+                sim.send(0, J(ActionType.JoinGame, agent_info=AgentInfo("a", "Attacker")))
+                sim.outputs()
+                reasons = []
+                for i in range(8):
+                    sim.send(0, J(ActionType.ScanNetwork, source_host=IP("192.168.2.2"), target_network=Network("192.168.1.0", 24)))
+                    for c, k, p in sim.outputs():
+                        if k == "reply":
+                            ob = (parse_reply(p)[1] or {}).get("observation") or {}
+                            reasons.append((ob.get("end"), (ob.get("info") or {}).get("end_reason")))
+                stats["probe_defender_switch"] = stats.get("probe_defender_switch", 0) + 1
+                detected = any(r and "Fail" in str(r) for _, r in reasons)
+                if detected != bool(setting):
+                    on_fail({"C19"} | ({"C17"} if setting else set()), f"defender-switch:{setting}",
+                            f"use_global_defender is {'absent' if setting is None else setting}: eight identical scans in a row with the detection draw pinned to 0 were "
+                            f"{'detected' if detected else 'never detected'} (replies end/reason: {reasons})", {"kind": "config-session", "config": cfg, "script": ["join", "8 x ScanNetwork 192.168.1.0/24, detection draw 0.0"]})
+            finally:
+                sim.close()
+    finally:
+        GD.random = orig
 
 
 def probe_defender_rolls(on_fail, stats):
